@@ -79,13 +79,16 @@ func (w *verifWorld) checkC02() {
 
 	// --- shared idle CPUs
 	w.unshared = w.unshared.Intersection(p.freeCpus)
+	w.unsharedDeleted = w.unsharedDeleted.Intersection(p.freeCpus)
+	includesScopeDeleted := true
 	notInBalloon, notIsolated, sharedAllowed, includesScope, includesScopeAbandoned := true, true, true, true, true
 	for _, b := range p.balloons {
 		notInBalloon = verifAnd(notInBalloon, b.SharedIdleCpus.Intersection(all).IsEmpty())
 		notIsolated = verifAnd(notIsolated, b.SharedIdleCpus.Intersection(isolated).IsEmpty())
 		sharedAllowed = verifAnd(sharedAllowed, b.SharedIdleCpus.IsSubsetOf(p.allowed))
 		scope := w.scopeIdle(b)
-		includesScope = verifAnd(includesScope, scope.Difference(w.unshared).IsSubsetOf(b.SharedIdleCpus))
+		includesScope = verifAnd(includesScope, scope.Difference(w.unshared).Difference(w.unsharedDeleted).IsSubsetOf(b.SharedIdleCpus))
+		includesScopeDeleted = verifAnd(includesScopeDeleted, scope.Intersection(w.unsharedDeleted).IsSubsetOf(b.SharedIdleCpus))
 		includesScopeAbandoned = verifAnd(includesScopeAbandoned, scope.Intersection(w.unshared).IsSubsetOf(b.SharedIdleCpus))
 	}
 	verifAssert("C02.shared-idle-not-in-any-balloon", notInBalloon)
@@ -93,6 +96,7 @@ func (w *verifWorld) checkC02() {
 	verifAssert("C02.shared-idle-within-allowed", sharedAllowed)
 	verifAssert("C02.shared-idle-includes-scope", includesScope)
 	verifAssert("C02.shared-idle-includes-scope.after-refused-allocation", includesScopeAbandoned)
+	verifAssert("C02.shared-idle-includes-scope.after-balloon-deleted", includesScopeDeleted)
 
 	// --- membership and confinement
 	exactlyOne, notListed, confined := true, true, true
@@ -198,8 +202,7 @@ func (w *verifWorld) checkC02() {
 // ReleaseResources of an existing one; checkC02 after the configuration and
 // after every request.
 func VerifC02History() {
-	cfg := verifConfig()
-	w, err := verifNewPolicy(verifParam("machine", 0), cfg)
+	w, err := verifNewPolicy(verifConfig())
 	if err != nil {
 		// configuration rejected (e.g. MinCpus > MaxCpus): outside the quantifier
 		verifCover("config-rejected")
@@ -237,9 +240,18 @@ func VerifC02History() {
 			if !w.member[i] {
 				return
 			}
+			nBalloons := len(w.p.balloons)
 			w.p.ReleaseResources(w.ctrs[i])
 			verifCover("released")
 			w.member[i] = false
+			if len(w.p.balloons) < nBalloons {
+				// the container's balloon was deleted: idle CPUs that are now
+				// missing from the shared idle CPUs of a balloon
+				verifCover("released-balloon-deleted")
+				for _, b := range w.p.balloons {
+					w.unsharedDeleted = w.unsharedDeleted.Union(w.scopeIdle(b).Difference(b.SharedIdleCpus))
+				}
+			}
 		}
 		w.checkC02()
 	}
